@@ -373,7 +373,7 @@ class FnTr:
                 if c.kind in ("weak", "optweak"):
                     return self.deref(c)
             if f.id in self.u.funcs:
-                return self.user_call(None, f.id, [self.val(a, env) for a in e.args], env, pure_only=True)
+                return self.inline_value(self.u.funcs[f.id], [self.val(a, env) for a in e.args], env)
         if isinstance(f, ast.Attribute):
             base = self.val(f.value, env)
             if base.kind in ("weak", "optweak") and f.attr == "__call__":
@@ -447,6 +447,73 @@ class FnTr:
                         out.append(coerce(a, kd))
                 return out
         return args
+
+    # module-level helper functions are inlined at the call (so that extracting / inlining a private
+    # helper does not change the generated definitions)
+    def inline_env(self, fn, args, env):
+        if isinstance(fn, ast.AsyncFunctionDef) or fn.decorator_list:
+            raise Unsupported(f"call of {fn.name}: coroutines / decorated functions cannot be inlined")
+        params = [a.arg for a in fn.args.args]
+        if len(params) != len(args) or fn.args.kwonlyargs or fn.args.vararg or fn.args.kwarg:
+            raise Unsupported(f"arguments of {fn.name}")
+        self.inline_depth = getattr(self, "inline_depth", 0) + 1
+        if self.inline_depth > 8:
+            raise Unsupported(f"recursive helper function {fn.name}")
+        pre = f"{fn.name}{self.new('')}."
+        names = set(params) | {n.id for n in ast.walk(fn) if isinstance(n, ast.Name) and isinstance(n.ctx, ast.Store)}
+
+        class R(ast.NodeTransformer):
+            def visit_Name(self, n):
+                return ast.copy_location(ast.Name(id=pre + n.id, ctx=n.ctx), n) if n.id in names else n
+        body = [R().visit(ast.parse(ast.unparse(st)).body[0]) for st in _doc_free(fn.body)]
+        env2 = {kk: vv for kk, vv in env.items() if kk not in (("attrstmt",), ("attrvalue",))}
+        env2.update({pre + p_: a for p_, a in zip(params, args)})
+        return body, env2, pre
+
+    def inline_value(self, fn, args, env):
+        body, env2, pre = self.inline_env(fn, args, env)
+        got = {}
+
+        def ret(v, e2):
+            if v is None:
+                raise Unsupported(f"{fn.name} used as a value returns nothing")
+            got.setdefault("vals", []).append(v)
+            return f"@R{len(got['vals']) - 1}@"
+        saved = self.effect_mode
+        self.effect_mode = False
+        try:
+            text = self.block(body, env2, {"next": lambda e2: ret(None, e2), "ret": ret,
+                                           "final": lambda e2, then: then(e2)})
+        except NeedEffect:
+            raise Unsupported(f"{fn.name} changes the state or can raise but is used inside an expression")
+        finally:
+            self.effect_mode = saved
+            self.inline_depth -= 1
+        vals = got["vals"]
+        kind = vals[0].kind
+        terms = [vals[0].term]
+        for v in vals[1:]:
+            kind, _, _ = self.unify(Val(kind, "x"), v)
+        for i, v in enumerate(vals):
+            text = text.replace(f"@R{i}@", coerce(v, kind).term if v.kind != kind else v.term)
+        return Val(kind, "(" + text + ")")
+
+    def inline_stmt(self, fn, args, env, k, bind):
+        body, env2, pre = self.inline_env(fn, args, env)
+
+        def back(e2):
+            e3 = {kk: vv for kk, vv in e2.items() if not (isinstance(kk, str) and kk.startswith(pre))
+                  and kk not in (("attrstmt",), ("attrvalue",))}
+            for kk in (("attrstmt",), ("attrvalue",)):
+                if kk in env:
+                    e3[kk] = env[kk]
+            return e3
+        try:
+            return self.block(body, env2, {"next": lambda e2: bind(None, back(e2)),
+                                           "ret": lambda v, e2: bind(v, back(e2)),
+                                           "final": lambda e2, then: then(e2)})
+        finally:
+            self.inline_depth -= 1
 
     def user_call(self, cls, name, args, env, pure_only=False):
         args = self.declared(cls, name, args)
@@ -752,7 +819,7 @@ class FnTr:
                     return self.do_user_call(cls, f.attr, [base] + argv, env, k, bind)
         if isinstance(f, ast.Name) and f.id in self.u.funcs and f.id not in ("task_is_runnable",):
             argv = [self.val(a, env) for a in call.args]
-            return self.do_user_call(None, f.id, argv, env, k, bind)
+            return self.inline_stmt(self.u.funcs[f.id], argv, env, k, bind)
         # a call without effect on the state
         v = self.call_value(call, env)
         return bind(v, env)
